@@ -268,8 +268,11 @@ fn mutate(rng: &mut Rng, base: &Content, invoice_msat: &BTreeMap<u64, u64>, fee_
         4 => a_sat - a_sat / 2,
         5 => 10_000,
         6 => a_sat + a_sat / 10 + fee_sat,
-        _ => 10_000 + rng.below(a_sat),
+        _ => 10_000 + rng.below(a_sat.max(1)),
     };
+    // an approval of 0 backs nothing: ordinary amounts go to its hash (and no dust-sized HTLCs,
+    // which the transaction builder of the test utilities cannot place)
+    let amt = if a_sat == 0 { *rng.pick(&[10_000u64, 50_000, 100_223]) } else { amt };
     match rng.below(8) {
         0 | 1 | 2 => c.out.entry(h).or_default().push(amt),
         3 => {
@@ -335,7 +338,8 @@ fn run_case(case: usize, nch: usize, script: Option<Vec<Op>>, rng: &mut Rng, len
                 match rng.below(20) {
                     0 | 1 | 2 => {
                         let h = *rng.pick(&HASHES);
-                        let a = *rng.pick(&[100_000_000u64, 50_000_000, 200_000_000]);
+                        // also approvals that name no amount (an amountless BOLT11 invoice, a keysend of 0): they back nothing
+                        let a = *rng.pick(&[100_000_000u64, 50_000_000, 200_000_000, 100_000_000, 0]);
                         Op::Invoice(h, a)
                     }
                     3..=8 => Op::SignCp(i, mutate(rng, &sys.chans[i].ccur.clone(), &invoices, fee_msat / 1000)),
@@ -574,7 +578,9 @@ fn one(h: u64, amt: u64, out: bool) -> Content {
 }
 
 fn run(args: &Args) {
-    std::panic::set_hook(Box::new(|_| {}));
+    if std::env::var("VERIF_SHOW_PANICS").is_err() {
+        std::panic::set_hook(Box::new(|_| {}));
+    }
     let mut rng = Rng::new(args.seed ^ 0x9a7);
     let mut n_viol = 0u64;
     let mut counts: BTreeMap<String, (u64, u64)> = BTreeMap::new();
